@@ -14,7 +14,7 @@
    Where a combinator is an existing Base/Str.v function it is defined as an alias and the
    trivial lemma  <combinator>_is  is proved here. *)
 From Coq Require Import String List NArith ZArith Bool Arith.
-From CMinx Require Import Base.Str Model.Writer Model.Lexer Model.Parser.
+From CMinx Require Import Base.Str Model.Writer Model.Lexer Model.Parser Model.DocTypes Model.Naming.
 Import ListNotations.
 
 (* ------------------------------------------------------------------ *)
@@ -275,6 +275,72 @@ Fixpoint py_fuel_fix {A R : Type} (n : nat) (body : (A -> R) -> A -> R) (dflt : 
   end.
 Definition py_arg_rec {R : Type} (dflt : R) (body : (arg -> R) -> arg -> R) (a : arg) : R :=
   py_fuel_fix (S (py_arg_depth a)) body dflt a.
+
+(* ------------------------------------------------------------------ *)
+(* more str functions                                                  *)
+
+(* Python:   x.replace(old, new)   The translator only emits this for a non-empty constant old
+   (Str.replace_all is Python's replace for a non-empty pattern). *)
+Definition py_replace (x old new : str) : str := replace_all old new x.
+(* Python:   x.strip()   (no argument: Python whitespace) *)
+Definition py_strip (x : str) : str := strip_ws x.
+(* Python:   re.sub(r'\.cmake$', '', x)   The translator accepts re.sub ONLY with exactly this
+   pattern and replacement.  Model.Naming.strip_cmake_ext is that substitution for every x that
+   does not end in a line feed (for x ending in .cmake followed by a line feed, the dollar also
+   matches before the final line feed; CMinx applies it to path names). *)
+Definition py_re_sub_cmake_ext (x : str) : str := strip_cmake_ext x.
+
+(* ------------------------------------------------------------------ *)
+(* references to documentation objects held in a list                  *)
+
+(* A documentation object is a Model.DocTypes.entry (a value).  Where Python keeps a second
+   reference to an object that is an element of a list L of documentation objects and mutates it
+   through that reference, the reference is the POSITION of the object in L:
+     refs = [x for x in L if isinstance(x, ModuleDocumentation)]   the positions of those elements
+     L.insert(0, e)                                                every position moves up by one
+     for r in refs:  r.name  /  r.name = v                         read / update the element at r
+   The translator rejects every other use of such a reference. *)
+
+(* Python:   isinstance(x, ModuleDocumentation) *)
+Definition py_is_module_entry (e : entry) : bool :=
+  match e with EModule _ _ => true | _ => false end.
+Definition py_no_entry : entry := EModule [] [].
+(* Python:   [x for x in xs if P(x)]   as references into xs *)
+Definition py_refs_where (p : entry -> bool) (xs : list entry) : list nat :=
+  map fst (filter (fun ie => p (snd ie)) (combine (seq 0 (length xs)) xs)).
+(* Python:   xs.insert(0, e)   (statement; the new value of xs) *)
+Definition py_insert_front {A : Type} (xs : list A) (e : A) : list A := e :: xs.
+(* ... and what it does to the references into xs *)
+Definition py_shift_refs (rs : list nat) : list nat := map S rs.
+(* the object a reference denotes (the default is never observed: references are positions
+   of existing elements) *)
+Definition py_deref (xs : list entry) (r : nat) : entry := nth r xs py_no_entry.
+(* Python:   r.name   for a documentation object *)
+Definition py_entry_name (e : entry) : str :=
+  match e with
+  | EFunction _ n _ _ _ => n
+  | EVariable n _ _ _ => n
+  | EOption n _ _ _ => n
+  | EGeneric n _ _ => n
+  | ECTest n _ _ => n
+  | ETest _ n _ _ _ _ => n
+  | EClass n _ _ _ _ _ _ => n
+  | EModule n _ => n
+  end.
+Definition py_entry_with_name (v : str) (e : entry) : entry :=
+  match e with
+  | EFunction m _ d p k => EFunction m v d p k
+  | EVariable _ d t x => EVariable v d t x
+  | EOption _ d x h => EOption v d x h
+  | EGeneric _ d p => EGeneric v d p
+  | ECTest _ d p => ECTest v d p
+  | ETest sec _ d xf p m => ETest sec v d xf p m
+  | EClass _ d su inn ct me at_ => EClass v d su inn ct me at_
+  | EModule _ d => EModule v d
+  end.
+(* Python:   r.name = v   for a reference r into xs (statement; the new value of xs) *)
+Definition py_set_ref_name (xs : list entry) (r : nat) (v : str) : list entry :=
+  update_nth r (py_entry_with_name v) xs.
 
 (* ------------------------------------------------------------------ *)
 (* the trivial alias lemmas                                            *)
